@@ -18,8 +18,8 @@ import (
 	"pgregory.net/rapid"
 )
 
-var lifeOps14 = []string{"connect", "connect", "connect", "call", "call", "call-partial", "call-partial", "close", "abort", "failcall", "shutdown", "shutdown", "shutdown-race", "shutdown-early", "cancel", "bind-again", "serve", "serve", "late-connect", "expiry"}
-var lifeOps15 = []string{"call-partial", "connect-expiry", "connect-expiry", "connect", "connect", "call", "close", "close", "abort", "failcall", "expiry", "expiry", "expiry", "shutdown", "serve", "late-connect", "cancel"}
+var lifeOps14 = []string{"connect", "connect", "connect", "call", "call", "call-partial", "call-partial", "close", "abort", "failcall", "shutdown", "shutdown", "shutdown-race", "shutdown-early", "cancel", "bind-again", "serve", "serve", "late-connect", "expiry", "accept-fault"}
+var lifeOps15 = []string{"call-partial", "connect-expiry", "connect-expiry", "connect", "connect", "call", "close", "close", "abort", "failcall", "expiry", "expiry", "expiry", "shutdown", "serve", "late-connect", "cancel", "accept-fault"}
 
 func genLife(t *rapid.T, ops []string, timeout bool) LifeCase {
 	c := LifeCase{Timeout: timeout}
